@@ -1,6 +1,6 @@
 """C11 Repetition, fifty-move and dead-material draws follow the game history."""
 import os, json
-import vlib, games
+import vlib, games, nodes
 
 
 def main():
@@ -44,6 +44,11 @@ def main():
                 chk.drift.append({"what": "material-cv", "detail": m, "source": p})
     if min(verdicts["T"], verdicts["F"]) == 0:
         raise vlib.ToolError("material family is one-sided: %s" % verdicts)
+    # node level (hook H6, Trace_Nodes.tla): every step of every node of recorded searches replayed on a stack of
+    # rule-book positions; this check reports the clauses filed under its own property
+    nstat = nodes.standard(chk, ("C11",), scale=0.5)
+    if nstat["counts"].get("D", 0) == 0:
+        raise vlib.ToolError("no draw recognised inside a recorded search: %s" % nstat)
     chk.cov.update({
         "evaluations": n1 + n2 + n_mat,
         "distinct_nontrivial": tot["reps"] + tot["clock100"] + verdicts["T"],
